@@ -52,6 +52,7 @@ def run(ctx):
                       "order (plus a keyword spec and a Parameter object): each spec is resolved relative to the method's owner; the result is exactly the Parameters named", floor=1)
     ctx.rule("R08.z", "the body of every `with _syncing(...)` holds no suspension point: an override made while an evaluation is pending must be seen as an override (ends the link) -- "
                       "the same structural fact as R10.a, decided here for the link's lifetime", floor=3)
+    ctx.rule("R08.u", "dispatch model, snapshot: inside a batch Parameters._call_watcher queues a watcher at its first event also when an event for the same parameter is already queued for another watcher (a link made in the middle of a batch must sync), and records the later event", floor=1)
     ctx.rule("R08.d", "every reference is installed: in Parameter.__set__ the relink decision holds whenever _resolve_ref returned a reference (top-level disjunct `ref is not None`), "
                       "and the constructor records refs[name] = ref under exactly `ref is not None`", floor=2)
     ctx.rule("R08.e", "_sync_refs re-resolves exactly the links one of whose dependencies matches one of the delivered events by (owner identity, name) -- decided by abstract "
@@ -401,6 +402,8 @@ def run(ctx):
     from checks import link_model
     link_model.report(ctx, "C08", "R08.l")
     link_model.report_resolve(ctx, "R08.v")
+    from checks import dispatch_model
+    dispatch_model.snapshot_model(ctx, "R08.u", "C08")
     link_model.report_resolve_ref(ctx, "R08.w")
     # the syncing scope holds no suspension point (shared with R10.a)
     from checks.c10 import is_syncing_with, SUSPEND, walk_no_nested
